@@ -290,9 +290,8 @@ Hbitappendable(int32 bitid)
 int
 Hbitwrite(int32 bitid, int count, uint32 data)
 {
-    static int32     last_bit_id = (-1);  /* the bit ID of the last bitfile_record accessed */
-    static bitrec_t *bitfile_rec = NULL;  /* access record */
-    int              orig_count  = count; /* keep track of orig, number of bits to output */
+    bitrec_t *bitfile_rec;        /* access record */
+    int       orig_count = count; /* keep track of orig, number of bits to output */
 
     /* clear error stack and check validity of file id */
     HEclear();
@@ -300,13 +299,9 @@ Hbitwrite(int32 bitid, int count, uint32 data)
     if (count <= 0)
         HRETURN_ERROR(DFE_ARGS, FAIL);
 
-    /* cache the bitfile_record since this routine gets called so many times */
-    if (bitid != last_bit_id) {
-        bitfile_rec = HAatom_object(bitid);
-        last_bit_id = bitid;
-    }
-
-    if (bitfile_rec == NULL)
+    /* Always look the record up: the atom layer caches recent lookups and,
+     * unlike a local cache, forgets an ID once it has been released */
+    if ((bitfile_rec = HAatom_object(bitid)) == NULL)
         HRETURN_ERROR(DFE_ARGS, FAIL);
 
     /* Check for write access */
@@ -420,12 +415,11 @@ Hbitwrite(int32 bitid, int count, uint32 data)
 int
 Hbitread(int32 bitid, int count, uint32 *data)
 {
-    static int32     last_bit_id = (-1); /* the bit ID of the last bitfile_record accessed */
-    static bitrec_t *bitfile_rec = NULL; /* access record */
-    uint32           l;
-    uint32           b = 0;      /* bits to return */
-    int              orig_count; /* the original number of bits to read in */
-    int32            n;
+    bitrec_t *bitfile_rec; /* access record */
+    uint32    l;
+    uint32    b = 0;      /* bits to return */
+    int       orig_count; /* the original number of bits to read in */
+    int32     n;
 
     /* clear error stack and check validity of file id */
     HEclear();
@@ -433,13 +427,9 @@ Hbitread(int32 bitid, int count, uint32 *data)
     if (count <= 0)
         HRETURN_ERROR(DFE_ARGS, FAIL);
 
-    /* cache the bitfile_record since this routine gets called so many times */
-    if (bitid != last_bit_id) {
-        bitfile_rec = HAatom_object(bitid);
-        last_bit_id = bitid;
-    }
-
-    if (bitfile_rec == NULL)
+    /* Always look the record up: the atom layer caches recent lookups and,
+     * unlike a local cache, forgets an ID once it has been released */
+    if ((bitfile_rec = HAatom_object(bitid)) == NULL)
         HRETURN_ERROR(DFE_ARGS, FAIL);
 
     /* Check for write access */
